@@ -8,7 +8,8 @@ Tie (T): C02_guards_as_modelled — the regenerated guard table of the C++ equal
 
 Statement of the property, clause by clause:
   (a) every read returns what a byte-array model predicts            C02_views_in_bounds, C02_handle_in_bounds,
-      (reads/writes go to exactly the addressed bytes of the buffer)  C02_write_read, C02_copyTo_reads, C02_copy_moves_bytes
+      (reads/writes go to exactly the addressed bytes of the buffer)  C02_write_read, C02_copyTo_reads, C02_copy_moves_bytes,
+                                                                      C02_writes_confined
   (b) slices and casts share their parent's bytes                     C02_slice_within_parent, C02_slice_alias, C02_cast_alias,
                                                                       C02_slice_write_parent_read, C02_parent_write_slice_read,
                                                                       C02_alias_persistent, C02_wrap_shares_host
@@ -22,6 +23,7 @@ import OccaProofs.Lemmas.Mem
 import OccaProofs.Lemmas.MemReject
 import OccaProofs.Lemmas.MemAlias
 import OccaProofs.Lemmas.MemGuards
+import OccaProofs.Lemmas.MemConfined
 
 namespace Occa.Mem.C02
 open Occa.Mem
@@ -129,6 +131,18 @@ theorem C02_copy_moves_bytes {s : State} (h : Inv s) {d src : Nat} {cnt doff sof
 
 example : results init [.malloc 0 4 1 (some [1, 2, 3, 4]), .copyFromMem 0 0 3 1 0, .copyToHost 0 4 (-1) 0] =
     [.ok none, .ok none, .ok (some [some 1, some 1, some 2, some 3])] := by decide
+
+/-- Memory safety of the model, for EVERY operation: a byte of an existing buffer that lies outside
+    the range of the handle written through (`Dest`: the receiver of `copyFrom`, the destination of a
+    device-to-device copy; no handle at all for every other operation) keeps its value.  So neither a
+    copy nor slice / cast / clone / malloc / free / setDtype can modify memory it was not pointed at. -/
+theorem C02_writes_confined {s : State} (h : Inv s) (op : Op) (hop : ∀ hb off data, op ≠ .hostWrite hb off data)
+    (q : View) (j : Nat) (hq : q.buf < s.bufs.length)
+    (hout : ∀ p, Dest s op = some p → q.buf ≠ p.buf ∨ q.off + j < p.off ∨ p.off + p.size ≤ q.off + j) :
+    byteAt (step s op).1 q j = byteAt s q j :=
+  step_writes_confined h op hop q j hq hout
+
+example : Dest (run init [.malloc 0 4 1 none, .malloc 1 4 1 none]) (.copyFromMem 1 0 4 0 0) = some ⟨3, 0, 4, 1⟩ := by decide
 
 /-! ### (b) slices, offsets and casts share their parent's bytes -/
 
